@@ -85,6 +85,7 @@ func checkC06(r *evid.Run) {
 	traceFsHistories(r, pool, fsTraceN(r), fsTraceMix{hostile: 0.05, long: 0.1, mkdir: 6, dry: 1, verify: 1, envw: 3}, []string{"C06_"})
 	// Mkdir under every option sequence (Options.tla): the last extension list and target win, nothing else matters
 	checkOptions(r, "rule", []int{0}, func(s *optState) bool { return s.Op == "mkdir" && tla.S(s.Rule["k"]) == "mkdir" })
+	sessionPhase(r) // Session.tla: the calls this property owns, after every other call of the alphabet
 	r.Set("exhaustive", true)
 	r.Set("rule", "every forest up to the bound over plain names (incl. a dotted name and an over-long name) x extension lists (empty, suffix, whole name, overlapping, a directory-looking name) x initial targets (present, missing, a regular file) x 0-1 environment step (a root pre-created as file or directory) x up to 2 mkdir calls (so: mkdir twice) x {From-Markdown, From-Root, deprecated aliases}; each replayed in a jail with full before/after snapshots; non-trivial = at least 2 items")
 }
@@ -301,6 +302,7 @@ func checkC08(r *evid.Run) {
 	traceFsHistories(r, pool, fsTraceN(r), fsTraceMix{hostile: 0.05, long: 0.05, mkdir: 3, dry: 0, verify: 6, envw: 4}, []string{"C08_"})
 	// Verify under every option sequence (Options.tla): the last target and strictness win, nothing else matters
 	checkOptions(r, "rule", []int{0}, func(s *optState) bool { return s.Op == "verify" })
+	sessionPhase(r) // Session.tla: the calls this property owns, after every other call of the alphabet
 	r.Set("exhaustive", true)
 	r.Set("rule", "every forest up to the bound x directory states reached by Mkdir of the same tree and/or 0-2 environment steps (any node path or an extra entry at any depth, as file or directory) x {strict, non-strict} x {From-Markdown, From-Root (single root)}; the error text is parsed into the two documented lists and compared as sets; non-trivial = more than 3 entries in the directory")
 }
@@ -402,6 +404,7 @@ func checkC09(r *evid.Run) {
 	traceFsHistories(r, pool, fsTraceN(r), fsTraceMix{hostile: 0.3, long: 0.05, mkdir: 1, dry: 6, verify: 1, envw: 2}, []string{"C09_"})
 	// dry run under every option sequence (Options.tla): dry run wins over an encoder; report and name validation as without
 	checkOptions(r, "rule", []int{0, 1}, func(s *optState) bool { return tla.S(s.Rule["k"]) == "report" })
+	sessionPhase(r) // Session.tla: the calls this property owns, after every other call of the alphabet
 	r.Set("exhaustive", true)
 	r.Set("rule", "every forest up to the bound (hostile names included) x 5 extension lists x {Mkdir-from-Markdown+dry-run, Mkdir-from-root+dry-run, Output+dry-run} x {simple, massive} x {target present, missing}; jail snapshot before/after; report compared with the real plain output per root + the specification's counts; counts compared with what a real Mkdir creates; non-trivial = at least 2 items")
 }
